@@ -367,7 +367,7 @@ let c03 op a =
       (match spec_decode_untyped_raw (unhex b) with
        | Ok (_, got) -> if got = vs then "(ok)" else "(bad-values " ^ String.concat " " (List.map sx_of_val got) ^ ")"
        | Err _ -> "(model-rejects-message)" | Panic -> "(panic)" | OutOfFuel -> "(skip)")
-  | "c10.annotate", [p; e; t; v] ->
+  | ("c10.annotate" | "c10.annotate.blob"), [p; e; t; v] ->
       (match annotate_top (p = "1") (env_of e) (val_of (parse_sx v)) (ty_of (parse_sx t)) with
        | Some w -> "(ok " ^ sx_of_val w ^ ")" | None -> "(err)")
   | "c04.sub_implies_coerce", [e; t; t2; v] ->
